@@ -177,12 +177,18 @@ theorem constValues_holds {I : Interp K} {σ : Env K} {vs : List (Var K)} (h : V
     simp at hn; subst hn; exact h v hv _ he
   · simp at hn
 
-theorem pvalues_sound {I : Interp K} {E : Engine K} (hE : EngineOk I E) {σ : Env K} (m : Model K)
-    (h : Sat I σ m) : Sat I σ (replaceParameterValues E m) := by
-  unfold replaceParameterValues
-  have hl := constValues_holds h.params
-  rw [sat_substMeta hE hl]
-  exact ⟨(eqok_map (fun e => sub_eval hE hl e)).2 h.eqs, valok_filter _ h.params, h.consts, h.alias⟩
+theorem pvalues_sound {I : Interp K} {E : Engine K} (hE : EngineOk I E) {σ : Env K} {m m' : Model K}
+    (h : replaceParameterValues E m = .ok m') (hs : Sat I σ m) : Sat I σ m' := by
+  unfold replaceParameterValues at h
+  cases hr : removeAliased (m.params.filter hasConstValue) m.ar with
+  | error err => simp [hr, bind, Except.bind] at h
+  | ok ar =>
+    simp [hr, bind, Except.bind, pure, Except.pure] at h
+    subst h
+    have hl := constValues_holds hs.params
+    rw [sat_substMeta hE hl]
+    exact ⟨(eqok_map (fun e => sub_eval hE hl e)).2 hs.eqs, valok_filter _ hs.params, hs.consts,
+      removeAliased_aliasOk hs.alias hr⟩
 
 theorem allValues_holds {I : Interp K} {σ : Env K} : ∀ {vs : List (Var K)} {l : List (String × Ex K)},
     allValues vs = .ok l → ValOk I σ vs → HoldsL I σ l
@@ -200,6 +206,22 @@ theorem allValues_holds {I : Interp K} {σ : Env K} : ∀ {vs : List (Var K)} {l
         rcases List.mem_cons.1 hp with rfl | hp
         · exact hv v (by simp) e he
         · exact allValues_holds hr (fun w hw => hv w (List.mem_cons_of_mem _ hw)) p hp
+
+theorem cvalues_sound {I : Interp K} {E : Engine K} (hE : EngineOk I E) {σ : Env K} {m m' : Model K}
+    (h : replaceConstantValues E m = .ok m') (hs : Sat I σ m) : Sat I σ m' := by
+  unfold replaceConstantValues at h
+  cases hv : allValues (m.consts.filter Var.simple) with
+  | error err => simp [hv, bind, Except.bind] at h
+  | ok l =>
+    cases hr : removeAliased (m.consts.filter Var.simple) m.ar with
+    | error err => simp [hv, hr, bind, Except.bind] at h
+    | ok ar =>
+      simp [hv, hr, bind, Except.bind, pure, Except.pure] at h
+      subst h
+      have hl : HoldsL I σ l := allValues_holds hv (valok_filter _ hs.consts)
+      rw [sat_substMeta hE hl]
+      exact ⟨(eqok_map (fun e => sub_eval hE hl e)).2 hs.eqs, hs.params, valok_filter _ hs.consts,
+        removeAliased_aliasOk hs.alias hr⟩
 
 /-! ## eliminate_constant_assignments -/
 
